@@ -327,6 +327,7 @@ class DB:
                     fn.key = key
                 self.fns[key] = fn
                 self.by_crate[unit].append(fn)
+                fn.promoteds = self.fns     # lookup table for `<fn name>::{promoted#N}` bodies (see Fn.promoted)
             if kind.startswith("lib"):
                 for c in d["consts"]:
                     self.consts[c["name"]] = c
